@@ -103,7 +103,8 @@ def check_buffer(cls, name, buf, rng, unit):
             yield 'n-differs-from-declared', 'consumed %d, the header declares %d' % (n, d)
         # what follows must not matter: nothing, random bytes, and the bytes a unit's own grammar treats specially (its last
         # byte again, line ends, blanks, zeros)
-        for suffix in (b'', bytes(rng.getrandbits(8) for _ in range(rng.randint(1, 5))), buf[n - 1:n] * 2, b'\n', b'\r\n', b' ', b'\x00\x00'):
+        for suffix in (b'', bytes(rng.getrandbits(8) for _ in range(rng.randint(1, 5))), buf[n - 1:n] * 2, b'\n', b'\r\n', b' ', b'\x00\x00',
+                       bytes(rng.getrandbits(8) for _ in range(300)), buf[:n] * 3):
             try:
                 o2, n2 = cls.parse_immutable(buf[:n] + suffix)
                 if n2 != n or not same(o2, obj):
